@@ -374,6 +374,8 @@ func c03Exec(c *Case) {
 			if model != "" {
 				c.Out(model, obs)
 			}
+		case len(f) >= 1 && f[0] == "hx":
+			c03ExecWide(c, l, f)
 		default:
 			c.Out(l, "err:bad-op")
 		}
